@@ -532,4 +532,353 @@ Section Proofs.
 
   Lemma new_abs mw ms c : new mw ms = Some c -> s_new mw ms = Some (abs c).
   Proof. unfold new, s_new. destruct (z_neg ms); [discriminate|]. intros [= <-]. reflexivity. Qed.
+
+  (* ---------- the property in its own words ---------- *)
+  Definition pairs (c : cache) : list (K * V) := map kv (c_entries c).
+
+  (* normalize reports exactly what it drops, oldest first, and never more than forced *)
+  Lemma normalize_order (c c' : cache) lg n :
+    pre_inv c -> normalize c = (c', lg, n) ->
+    map fst lg ++ keys c' = keys c /\ Permutation (lg ++ pairs c') (pairs c).
+  Proof.
+    intros P Hn. destruct (normalize_spec _ _ _ _ P Hn) as (_ & _ & _ & _ & ev & -> & He & _).
+    unfold keys, pairs. rewrite He. split.
+    - rewrite rev_app_distr, map_app, map_map. f_equal.
+    - rewrite map_app. rewrite map_rev. rewrite Permutation_app_comm.
+      apply Permutation_app_head. symmetry. apply Permutation_rev.
+  Qed.
+
+  Lemma ekeys_remove_key k (l : list entry) :
+    NoDup (ekeys l) -> ekeys (remove_key keqb k l) = filter (fun x => negb (keqb k x)) (ekeys l).
+  Proof.
+    intros Hd.
+    assert (Hall : forall m : list entry, ~ In k (ekeys m) -> filter (fun x => negb (keqb k x)) (ekeys m) = ekeys m).
+    { intros m Hm. apply filter_all_true. intros x Hx. destruct (keqb k x) eqn:E; [|reflexivity].
+      apply keqb_spec in E. subst. contradiction. }
+    destruct (find_entry keqb k l) as [e|] eqn:F.
+    - destruct (find_split _ _ _ F) as (a & b & -> & -> & Hn).
+      destruct (find_entry_some _ _ _ F) as [_ Hk].
+      rewrite !ekeys_app in *. cbn [ekeys map] in *. rewrite Hk in *.
+      destruct (nodup_split_notin _ _ _ Hd) as (H1 & H2 & _).
+      rewrite filter_app. cbn [filter]. rewrite keqb_refl. cbn [negb].
+      fold (ekeys a) (ekeys b). rewrite (Hall a H1), (Hall b H2). reflexivity.
+    - apply find_entry_none in F. rewrite remove_key_notin by exact F. symmetry. exact (Hall l F).
+  Qed.
+
+  Lemma filter_rev {A} (f : A -> bool) (l : list A) : filter f (rev l) = rev (filter f l).
+  Proof.
+    induction l as [|x l IH]; [reflexivity|]. cbn [rev filter]. rewrite filter_app, IH. cbn [filter].
+    destruct (f x); cbn [rev]; [reflexivity | rewrite app_nil_r; reflexivity].
+  Qed.
+
+  Lemma keys_refresh k (l : list entry) (e : entry) :
+    NoDup (ekeys l) -> e_key e = k ->
+    map e_key (rev (e :: remove_key keqb k l)) = filter (fun x => negb (keqb k x)) (map e_key (rev l)) ++ [k].
+  Proof.
+    intros Hd Hk. cbn [rev]. rewrite map_app. cbn [map]. rewrite Hk. f_equal.
+    rewrite !map_rev. fold (ekeys (remove_key keqb k l)) (ekeys l).
+    rewrite ekeys_remove_key by exact Hd. rewrite filter_rev. reflexivity.
+  Qed.
+
+  (* Add: the key becomes the newest; what is evicted are the oldest keys, in order; the
+     cache afterwards plus the callback log is exactly the old content (minus an overwritten
+     value of k) plus the new pair: nothing is lost, nothing reported twice. *)
+  Theorem add_lru k v w (c c' : cache) lg n :
+    inv c -> small w -> add keqb k v w c = (c', lg, n) ->
+    map fst lg ++ keys c' = filter (fun x => negb (keqb k x)) (keys c) ++ [k] /\
+    Permutation (lg ++ pairs c') ((k, v) :: map kv (remove_key keqb k (c_entries c))) /\
+    n = N.of_nat (length lg).
+  Proof.
+    intros I Hw Ha. rewrite add_unfold in Ha.
+    destruct (add_mid_spec k v w c I Hw) as (P & He & _ & _).
+    destruct (normalize_order _ _ _ _ P Ha) as [O1 O2].
+    destruct (normalize_spec _ _ _ _ P Ha) as (_ & _ & _ & Hn & _).
+    unfold keys at 2 in O1. unfold pairs at 2 in O2. rewrite He in O1, O2.
+    rewrite (keys_refresh k _ (mkEntry k v w) (proj1 I) eq_refl) in O1. cbn [map kv e_key e_val] in O2.
+    repeat split; assumption.
+  Qed.
+
+  (* an entry heavier than the weight bound is evicted by the very Add that inserts it *)
+  Theorem add_heavy k v w (c c' : cache) lg n :
+    inv c -> small w -> c_max_weight c < w -> add keqb k v w c = (c', lg, n) ->
+    In (k, v) lg /\ c_entries c' = [] /\ contains keqb k c' = false.
+  Proof.
+    intros I Hw Hh Ha. rewrite add_unfold in Ha.
+    destruct (add_mid_spec k v w c I Hw) as (P & He & Hmw & _).
+    destruct (normalize_spec _ _ _ _ P Ha) as (I' & Hmw' & _ & _ & ev & -> & Hev & _).
+    rewrite He in Hev.
+    assert (Hnil : c_entries c' = []).
+    { destruct (c_entries c') as [|x rest] eqn:E; [reflexivity|exfalso].
+      cbn [app] in Hev. injection Hev as <- _.
+      destruct I' as (_ & _ & I3 & _). rewrite E, sumw_cons in I3. cbn [e_weight] in I3. lia. }
+    split; [|split; [exact Hnil | unfold contains; rewrite Hnil; reflexivity]].
+    rewrite Hnil in Hev. cbn [app] in Hev. rewrite <- Hev. cbn [rev]. rewrite map_app. apply in_or_app. right. left. reflexivity.
+  Qed.
+
+  (* Get on a present key: value of the entry, key becomes the newest, nothing else moves *)
+  Theorem get_lru k (c c' : cache) r :
+    inv c -> get keqb k c = (c', r) ->
+    match r with
+    | Some v => In (k, v) (pairs c) /\ keys c' = filter (fun x => negb (keqb k x)) (keys c) ++ [k] /\
+                Permutation (pairs c') (pairs c)
+    | None => c' = c /\ ~ In k (keys c)
+    end.
+  Proof.
+    intros I. unfold get. destruct (find_entry keqb k (c_entries c)) as [e|] eqn:F; intros [= <- <-].
+    - destruct (find_entry_some _ _ _ F) as [Hi Hk]. repeat split.
+      + unfold pairs. apply in_map_iff. exists e. split; [unfold kv; rewrite Hk; reflexivity | exact Hi].
+      + unfold keys. cbn [c_entries]. exact (keys_refresh k _ e (proj1 I) Hk).
+      + unfold pairs. cbn [c_entries map]. destruct (find_split _ _ _ F) as (a & b & -> & -> & _).
+        rewrite !map_app. cbn [map]. apply Permutation_middle.
+    - split; [reflexivity|]. apply find_entry_none in F. unfold keys. rewrite map_rev. intros H. apply in_rev in H. contradiction.
+  Qed.
+
+  (* the read-only operations leave the cache as it is *)
+  Theorem readonly_ops (c : cache) o c' r lg :
+    match o with OPeek _ | OContains _ | OGetOldest | OKeys | OLen | OWeight => True | _ => False end ->
+    step keqb c o = (c', r, lg) -> c' = c /\ lg = [].
+  Proof. destruct o; cbn [step]; intros []; intros [= <- <- <-]; split; reflexivity. Qed.
+
+  Theorem remove_reports k (c c' : cache) lg b :
+    inv c -> remove keqb k c = (c', lg, b) ->
+    Permutation (lg ++ pairs c') (pairs c) /\
+    keys c' = filter (fun x => negb (keqb k x)) (keys c) /\
+    (b = true <-> In k (keys c)) /\ (b = false -> lg = []) /\ (b = true -> exists v, lg = [(k, v)]).
+  Proof.
+    intros I. unfold remove. destruct (find_entry keqb k (c_entries c)) as [e|] eqn:F; intros [= <- <- <-].
+    - destruct (find_entry_some _ _ _ F) as [Hi Hk]. repeat split; try discriminate; auto.
+      + unfold pairs. cbn [c_entries app]. destruct (find_split _ _ _ F) as (a & b' & -> & -> & _).
+        rewrite !map_app. cbn [map]. apply Permutation_middle.
+      + unfold keys. cbn [c_entries]. rewrite !map_rev. fold (ekeys (remove_key keqb k (c_entries c))) (ekeys (c_entries c)).
+        rewrite ekeys_remove_key by exact (proj1 I). rewrite filter_rev. reflexivity.
+      + intros _. unfold keys. rewrite map_rev. apply -> in_rev. apply in_map_iff. exists e. split; assumption.
+      + intros _. exists (e_val e). unfold kv. rewrite Hk. reflexivity.
+    - apply find_entry_none in F. repeat split; try discriminate; auto.
+      + symmetry. unfold keys. rewrite map_rev. fold (ekeys (c_entries c)). rewrite filter_rev. f_equal.
+        apply filter_all_true. intros x Hx. destruct (keqb k x) eqn:E; [|reflexivity]. apply keqb_spec in E. subst. contradiction.
+      + intros H. exfalso. unfold keys in H. rewrite map_rev in H. apply in_rev in H. contradiction.
+  Qed.
+
+  Theorem remove_oldest_reports (c c' : cache) lg r :
+    remove_oldest c = (c', lg, r) ->
+    match r with
+    | Some p => lg = [p] /\ map fst lg ++ keys c' = keys c /\ Permutation (lg ++ pairs c') (pairs c)
+    | None => lg = [] /\ c' = c /\ keys c = []
+    end.
+  Proof.
+    unfold remove_oldest, keys, pairs. destruct (rev (c_entries c)) as [|e rest] eqn:R; intros [= <- <- <-].
+    - repeat split. 
+    - assert (Hl : c_entries c = rev rest ++ [e]).
+      { rewrite <- (rev_involutive (c_entries c)), R. reflexivity. }
+      repeat split.
+      + cbn [c_entries map fst app kv]. rewrite rev_involutive. reflexivity.
+      + cbn [c_entries app]. rewrite Hl, map_app. cbn [map]. apply Permutation_cons_append.
+  Qed.
+
+  Theorem purge_reports (c c' : cache) lg :
+    purge c = (c', lg) -> c_entries c' = [] /\ lg = pairs c.
+  Proof. unfold purge. intros [= <- <-]. split; reflexivity. Qed.
+
+  Theorem resize_lru mw ms (c c' : cache) lg n :
+    inv c -> small mw -> resize mw ms c = Some (c', lg, n) ->
+    map fst lg ++ keys c' = keys c /\ Permutation (lg ++ pairs c') (pairs c) /\
+    n = N.of_nat (length lg) /\ c_max_weight c' = mw /\ c_max_size c' = z_to_N ms /\ z_neg ms = false.
+  Proof.
+    intros I Hm. unfold resize. destruct (z_neg ms); [discriminate|]. intros Hn0.
+    assert (Hn := f_equal (fun o => match o with Some x => x | None => (c', lg, n) end) Hn0).
+    cbv beta iota in Hn. clear Hn0.
+    pose proof (resize_mid_pre mw (z_to_N ms) c I Hm) as P.
+    destruct (normalize_order _ _ _ _ P Hn) as [O1 O2].
+    destruct (normalize_spec _ _ _ _ P Hn) as (_ & H1 & H2 & H3 & _).
+    repeat split; auto.
+  Qed.
+
+  (* every eviction is forced: just before an entry was dropped the cache was over a bound *)
+  Theorem add_minimal k v w (c c' : cache) lg n :
+    inv c -> small w -> add keqb k v w c = (c', lg, n) ->
+    exists ev, lg = map kv (rev ev) /\
+      mkEntry k v w :: remove_key keqb k (c_entries c) = c_entries c' ++ ev /\
+      forall pre x suf, rev ev = pre ++ x :: suf ->
+        over (c_max_weight c) (c_max_size c) (length (x :: suf ++ rev (c_entries c')))
+             (sumw (x :: suf ++ rev (c_entries c'))) = true.
+  Proof.
+    intros I Hw Ha. rewrite add_unfold in Ha.
+    destruct (add_mid_spec k v w c I Hw) as (P & He & Hmw & Hms).
+    destruct (normalize_spec _ _ _ _ P Ha) as (_ & _ & _ & _ & ev & H1 & H2 & H3).
+    exists ev. rewrite He, Hmw, Hms in *. repeat split; assumption.
+  Qed.
+
+  (* ---------- histories ---------- *)
+  (* states reachable from the constructor by any sequence of operations with small weights *)
+  Definition reachable (c : cache) : Prop :=
+    exists mw ms ops c0 tr, small mw /\ Forall op_small ops /\
+      new mw ms = Some c0 /\ run keqb c0 ops = (c, tr).
+
+  Theorem reach_inv c : reachable c -> inv c.
+  Proof.
+    intros (mw & ms & ops & c0 & tr & Hm & Hs & Hn & Hr).
+    exact (run_inv ops _ _ _ (new_inv _ _ _ Hm Hn) Hs Hr).
+  Qed.
+
+  (* the bounds in force after a history: those of the last terminating Resize, else the constructor's *)
+  Fixpoint bounds_after (b : N * N) (ops : list (op K V)) : N * N :=
+    match ops with
+    | [] => b
+    | OResize mw ms :: r => bounds_after (if z_neg ms then b else (mw, z_to_N ms)) r
+    | _ :: r => bounds_after b r
+    end.
+
+  Lemma step_bounds c o c' r lg :
+    inv c -> op_small o -> step keqb c o = (c', r, lg) ->
+    (c_max_weight c', c_max_size c') =
+      match o with
+      | OResize mw ms => if z_neg ms then (c_max_weight c, c_max_size c) else (mw, z_to_N ms)
+      | _ => (c_max_weight c, c_max_size c)
+      end.
+  Proof.
+    intros I Hs. destruct o; cbn [step op_small] in *;
+      try (intros [= <- <- <-]; reflexivity).
+    - rewrite add_unfold. destruct (normalize _) as [[c1 l1] n1] eqn:Hn. intros [= <- <- <-].
+      destruct (add_mid_spec k v w c I Hs) as (P & _ & H1 & H2).
+      destruct (normalize_spec _ _ _ _ P Hn) as (_ & -> & -> & _). rewrite H1, H2. reflexivity.
+    - unfold get. destruct (find_entry keqb k (c_entries c)); intros [= <- <- <-]; reflexivity.
+    - unfold remove. destruct (find_entry keqb k (c_entries c)); intros [= <- <- <-]; reflexivity.
+    - unfold remove_oldest. destruct (rev (c_entries c)); intros [= <- <- <-]; reflexivity.
+    - unfold resize. destruct (z_neg ms); [intros [= <- <- <-]; reflexivity|].
+      destruct (normalize _) as [[c1 l1] n1] eqn:Hn. intros [= <- <- <-].
+      destruct (normalize_spec _ _ _ _ (resize_mid_pre mw (z_to_N ms) c I Hs) Hn) as (_ & -> & -> & _). reflexivity.
+    - unfold contains_or_add. destruct (contains keqb k c); [intros [= <- <- <-]; reflexivity|].
+      rewrite add_unfold. destruct (normalize _) as [[c1 l1] n1] eqn:Hn. intros [= <- <- <-].
+      destruct (add_mid_spec k v w c I Hs) as (P & _ & H1 & H2).
+      destruct (normalize_spec _ _ _ _ P Hn) as (_ & -> & -> & _). rewrite H1, H2. reflexivity.
+    - unfold peek_or_add. destruct (peek keqb k c); [intros [= <- <- <-]; reflexivity|].
+      rewrite add_unfold. destruct (normalize _) as [[c1 l1] n1] eqn:Hn. intros [= <- <- <-].
+      destruct (add_mid_spec k v w c I Hs) as (P & _ & H1 & H2).
+      destruct (normalize_spec _ _ _ _ P Hn) as (_ & -> & -> & _). rewrite H1, H2. reflexivity.
+  Qed.
+
+  Lemma run_bounds_after ops : forall c c' tr,
+    inv c -> Forall op_small ops -> run keqb c ops = (c', tr) ->
+    (c_max_weight c', c_max_size c') = bounds_after (c_max_weight c, c_max_size c) ops.
+  Proof.
+    induction ops as [|o ops IH]; intros c c' tr I Hs; cbn [run bounds_after].
+    - intros [= <- <-]; reflexivity.
+    - destruct (step keqb c o) as [[c1 r1] l1] eqn:S. destruct (run keqb c1 ops) as [c2 tr2] eqn:R.
+      intros [= <- <-]. inversion Hs as [|? ? H1 H2]; subst.
+      rewrite (IH _ _ _ (step_inv _ _ _ _ _ I H1 S) H2 R). rewrite (step_bounds _ _ _ _ _ I H1 S).
+      destruct o; reflexivity.
+  Qed.
+
+  (* C29, first sentence: after every operation of every history, for all bounds *)
+  Theorem run_bounds mw ms ops c0 c tr :
+    small mw -> Forall op_small ops -> new mw ms = Some c0 -> run keqb c0 ops = (c, tr) ->
+    let b := bounds_after (mw, z_to_N ms) ops in
+    len c <= snd b /\ sumw (c_entries c) <= fst b /\ NoDup (keys c) /\
+    weight c = sumw (c_entries c) /\ c_stuck c = false.
+  Proof.
+    intros Hm Hs Hn Hr. pose proof (new_inv _ _ _ Hm Hn) as I0.
+    pose proof (run_inv ops _ _ _ I0 Hs Hr) as (I1 & I2 & I3 & I4 & I5 & I6).
+    pose proof (run_bounds_after ops _ _ _ I0 Hs Hr) as Hb.
+    assert (Hc0 : (c_max_weight c0, c_max_size c0) = (mw, z_to_N ms)).
+    { unfold new in Hn. destruct (z_neg ms); [discriminate|]. injection Hn as <-. reflexivity. }
+    rewrite Hc0 in Hb. cbn zeta. rewrite <- Hb. cbn [fst snd]. unfold len, weight, keys.
+    repeat split; auto. rewrite map_rev. apply NoDup_rev. exact I1.
+  Qed.
+
+  (* refinement, from the constructor *)
+  Theorem run_refines_new mw ms ops c0 c tr :
+    small mw -> Forall op_small ops -> new mw ms = Some c0 -> run keqb c0 ops = (c, tr) ->
+    exists s0, s_new mw ms = Some s0 /\ s_run keqb s0 ops = (abs c, tr).
+  Proof.
+    intros Hm Hs Hn Hr. exists (abs c0). split; [exact (new_abs _ _ _ Hn)|].
+    exact (run_refines ops _ _ _ (new_inv _ _ _ Hm Hn) Hs Hr).
+  Qed.
+
+  (* the per-operation theorems, stated for every reachable cache *)
+  Corollary add_lru_reach k v w c c' lg n :
+    reachable c -> small w -> add keqb k v w c = (c', lg, n) ->
+    map fst lg ++ keys c' = filter (fun x => negb (keqb k x)) (keys c) ++ [k] /\
+    Permutation (lg ++ pairs c') ((k, v) :: map kv (remove_key keqb k (c_entries c))) /\
+    n = N.of_nat (length lg).
+  Proof. intros R. exact (add_lru k v w c c' lg n (reach_inv c R)). Qed.
+  Corollary add_heavy_reach k v w c c' lg n :
+    reachable c -> small w -> c_max_weight c < w -> add keqb k v w c = (c', lg, n) ->
+    In (k, v) lg /\ c_entries c' = [] /\ contains keqb k c' = false.
+  Proof. intros R. exact (add_heavy k v w c c' lg n (reach_inv c R)). Qed.
+  Corollary add_minimal_reach k v w c c' lg n :
+    reachable c -> small w -> add keqb k v w c = (c', lg, n) ->
+    exists ev, lg = map kv (rev ev) /\
+      mkEntry k v w :: remove_key keqb k (c_entries c) = c_entries c' ++ ev /\
+      forall pre x suf, rev ev = pre ++ x :: suf ->
+        over (c_max_weight c) (c_max_size c) (length (x :: suf ++ rev (c_entries c')))
+             (sumw (x :: suf ++ rev (c_entries c'))) = true.
+  Proof. intros R. exact (add_minimal k v w c c' lg n (reach_inv c R)). Qed.
+  Corollary get_lru_reach k c c' r :
+    reachable c -> get keqb k c = (c', r) ->
+    match r with
+    | Some v => In (k, v) (pairs c) /\ keys c' = filter (fun x => negb (keqb k x)) (keys c) ++ [k] /\
+                Permutation (pairs c') (pairs c)
+    | None => c' = c /\ ~ In k (keys c)
+    end.
+  Proof. intros R. exact (get_lru k c c' r (reach_inv c R)). Qed.
+  Corollary remove_reports_reach k c c' lg b :
+    reachable c -> remove keqb k c = (c', lg, b) ->
+    Permutation (lg ++ pairs c') (pairs c) /\
+    keys c' = filter (fun x => negb (keqb k x)) (keys c) /\
+    (b = true <-> In k (keys c)) /\ (b = false -> lg = []) /\ (b = true -> exists v, lg = [(k, v)]).
+  Proof. intros R. exact (remove_reports k c c' lg b (reach_inv c R)). Qed.
+  Corollary resize_lru_reach mw ms c c' lg n :
+    reachable c -> small mw -> resize mw ms c = Some (c', lg, n) ->
+    map fst lg ++ keys c' = keys c /\ Permutation (lg ++ pairs c') (pairs c) /\
+    n = N.of_nat (length lg) /\ c_max_weight c' = mw /\ c_max_size c' = z_to_N ms /\ z_neg ms = false.
+  Proof. intros R. exact (resize_lru mw ms c c' lg n (reach_inv c R)). Qed.
+  Corollary step_refines_reach c o c' r lg :
+    reachable c -> op_small o -> step keqb c o = (c', r, lg) ->
+    s_step keqb (abs c) o = (abs c', r, lg) /\ reachable c'.
+  Proof.
+    intros R Hs S. split; [exact (step_refines c o c' r lg (reach_inv c R) Hs S)|].
+    destruct R as (mw & ms & ops & c0 & tr & Hm & Ho & Hn & Hr).
+    exists mw, ms, (ops ++ [o]), c0, (tr ++ [(r, lg)]). repeat split; auto.
+    - apply Forall_app. split; [exact Ho | constructor; [exact Hs | constructor]].
+    - clear Hn Ho. revert c0 tr Hr. induction ops as [|o' ops IH]; intros c0 tr; cbn [run app].
+      + intros [= <- <-]. rewrite S. reflexivity.
+      + destruct (step keqb c0 o') as [[c1 r1] l1]. destruct (run keqb c1 ops) as [c2 tr2] eqn:E.
+        intros [= <- <-]. rewrite (IH _ _ E). reflexivity.
+  Qed.
 End Proofs.
+
+(* ---------- the specification read on its own: trim keeps the longest fitting suffix ---------- *)
+Section SpecFacts.
+  Context {K V : Type}.
+  Notation item := (@item K V).
+
+  Lemma trim_split mw ms (l : list item) ev kp : trim mw ms l = (ev, kp) -> ev ++ kp = l.
+  Proof.
+    revert ev kp. induction l as [|it r IH]; intros ev kp; cbn [trim].
+    - intros [= <- <-]; reflexivity.
+    - destruct (fits mw ms (it :: r)); [intros [= <- <-]; reflexivity|].
+      destruct (trim mw ms r) as [ev' kp'] eqn:T. intros [= <- <-]. cbn [app]. f_equal. apply IH. reflexivity.
+  Qed.
+
+  Lemma trim_fits mw ms (l : list item) ev kp : trim mw ms l = (ev, kp) -> fits mw ms kp = true.
+  Proof.
+    revert ev kp. induction l as [|it r IH]; intros ev kp; cbn [trim].
+    - intros [= <- <-]. unfold fits. cbn [total fold_right length]. lia.
+    - destruct (fits mw ms (it :: r)) eqn:F; [intros [= <- <-]; exact F|].
+      destruct (trim mw ms r) as [ev' kp'] eqn:T. intros [= <- <-]. exact (IH _ _ eq_refl).
+  Qed.
+
+  Theorem trim_longest mw ms (l : list item) ev kp :
+    trim mw ms l = (ev, kp) ->
+    forall ev' kp', ev' ++ kp' = l -> fits mw ms kp' = true -> (length kp' <= length kp)%nat.
+  Proof.
+    revert ev kp. induction l as [|it r IH]; intros ev kp; cbn [trim].
+    - intros [= <- <-] ev' kp' H _. apply app_eq_nil in H. destruct H as [_ ->]. cbn [length]. lia.
+    - destruct (fits mw ms (it :: r)) eqn:F.
+      + intros [= <- <-] ev' kp' H _. apply (f_equal (@length _)) in H. rewrite app_length in H. lia.
+      + destruct (trim mw ms r) as [ev0 kp0] eqn:T. intros [= <- <-] ev' kp' H Hf.
+        destruct ev' as [|x ev']; cbn [app] in H.
+        * subst kp'. congruence.
+        * injection H as _ H. exact (IH _ _ eq_refl _ _ H Hf).
+  Qed.
+End SpecFacts.
